@@ -28,7 +28,7 @@ def injection_part(ck, tier, rng):
 
 def main(tier, seed):
     return sprops.main_S(PID, tier, seed, {65, 66, 67}, "Props.C06",
-                         ["Model/Sim.v", "Model/Master.v", "Oracle/SimCheck.v", "Oracle/SimOracle.v", "Proofs/MasterP.v", "Model/PyLib.v", "Gen/SourceFuns.v", "Proofs/GenWakeupsP.v", "Props/C06.v"],
+                         ["Model/Sim.v", "Model/Master.v", "Oracle/SimCheck.v", "Oracle/SimOracle.v", "Proofs/MasterP.v", "Model/PyLib.v", "Gen/SourceFuns.v", "Proofs/GenWakeupsP.v", "Proofs/GenNestedEpilogueP.v", "Props/C06.v"],
                          "callbacks", "callbacks", extra=injection_part)
 
 
